@@ -19,7 +19,12 @@ EXPLANATION = (
     "defining shape, and the pre-pass and the main pass index characters the same way; (FIRSTHEART) a heart is stored "
     "into an operator's right slot only when that slot is empty; (TABLES) the literal tables agree with each other and "
     "with the byte-offset arithmetic (all table characters 3 bytes); (TOTAL) no panic-capable site in the parser "
-    "outside an audited table. The right-nested tree construction algorithm as a whole is NOT decided."
+    "outside an audited table; (TREE) the right-nested construction of the area tree is decided handler by handler: for "
+    "`?`, `!`, a heart and the two places where a finished command is stored, the set of (guards, effects) over all "
+    "acyclic paths - which slot or tree is written with which node, where each cursor points afterwards - equals the "
+    "decision table of the grammar (path-precise origins; effects compared as sets). NOT decided: that these per-step "
+    "tables compose to the grammar's tree for every character sequence (an induction over the input that is argued in "
+    "DESIGN.md, not mechanised)."
 )
 ASSUMPTIONS = ["rustc MIR (nightly 1.97, mir-opt-level=0); unwind edges ignored", "std str::find/chars/enumerate/position behave as documented", "audited panic sites: justifications in rules/p_c04.py AUDITED"]
 TRUSTED = ["rustc nightly MIR", "/verif/rules A-DOM/A-ORG/A-AUD"]
@@ -448,3 +453,224 @@ RULES = [
     ("C04.TABLES", "literal tables agree with each other and the byte-offset arithmetic", rule_tables),
     ("C04.TOTAL", "no unaudited panic-capable site in the parser", rule_total),
 ]
+
+
+# ------------------------------------------------------------------------------------------------ tree construction
+class TreeModel:
+    """the two partially built trees and their cursors, named by what they are used for:
+    QAREA = the tree that is rebuilt around the other one when a `?` arrives, AREA = the other;
+    LEAF / QLEAF = the cursor that initially points to AREA / QAREA"""
+
+    def __init__(self, M):
+        b = M.b
+        self.ok = False
+        cur = [l for l in range(len(b.locals)) if b.lty(l) == "&mut core::area::Area" and l in b.local_names() and len(M.vars.defs.get(l, [])) >= 2]
+        if len(cur) != 2 or len(M.trees) != 2:
+            return
+        t0, t1 = M.trees
+        q = None
+        for t, other in ((t0, t1), (t1, t0)):
+            # AREA is the tree that is assigned freshly made leaves (Area::new(..)); QAREA never is
+            leafy = lambda x: any(d[0] == "assign" and (lambda o: o[0] == "call" and o[1] == "core::area::Area::new")(M.org.of_rvalue(d[3]["r"], d[1], d[2])) for d in M.vars.defs.get(x, []))
+            if leafy(other) and not leafy(t):
+                q = (t, other)
+        if q is None:
+            return
+        self.qarea, self.area = q
+        self.names = {self.area: "AREA", self.qarea: "QAREA"}
+        # cursors by their first target
+        self.cur = {}
+        for c in cur:
+            ds = sorted(M.vars.defs.get(c, []), key=lambda d: (d[1], d[2] if d[2] != "t" else 1 << 20))
+            first = [d for d in ds if d[1] not in M.loop]
+            if not first:
+                return
+            tgt = self.ref_target(b, M.vars, first[0][3]["r"])
+            if tgt == self.area:
+                self.cur[c] = "LEAF"
+            elif tgt == self.qarea:
+                self.cur[c] = "QLEAF"
+        self.ok = sorted(self.cur.values()) == ["LEAF", "QLEAF"]
+
+    @staticmethod
+    def _moves(b, bi, local):
+        for blk_i in range(max(0, bi - 6), bi + 1):
+            for s in b.blocks[blk_i]["stmts"]:
+                if s["k"] == "assign" and s["r"]["k"] == "use" and s["r"]["x"].get("k") == "move" and s["r"]["x"]["p"] == {"l": local, "proj": []}:
+                    yield True
+
+    @staticmethod
+    def ref_target(b, vars_, r, depth=0):
+        """local that a chain  &mut (*(&mut X))  / move temp  finally borrows, or None"""
+        while depth < 12:
+            depth += 1
+            if r["k"] == "ref":
+                p = r["p"]
+                if not p["proj"]:
+                    return p["l"]
+                if p["proj"] == ["deref"]:
+                    ds = vars_.defs.get(p["l"], [])
+                    if len(ds) == 1 and ds[0][0] == "assign":
+                        r = ds[0][3]["r"]
+                        continue
+                return None
+            if r["k"] == "use" and r["x"].get("k") in ("move", "copy") and not r["x"]["p"]["proj"]:
+                ds = vars_.defs.get(r["x"]["p"]["l"], [])
+                if len(ds) == 1 and ds[0][0] == "assign":
+                    r = ds[0][3]["r"]
+                    continue
+            return None
+        return None
+
+
+HEART_RE = None
+
+
+def _tree_norm(s):
+    import re
+    global HEART_RE
+    if HEART_RE is None:
+        HEART_RE = re.compile(r"CAST\[usize->u8\]\(\(SOME\(Iterator::position\(\[T\]::iter\(CONST:HEARTS\),CLOSURE\)\) Add K2\)\)|\(CAST\[usize->u8\]\(SOME\(Iterator::position\(\[T\]::iter\(CONST:HEARTS\),CLOSURE\)\)\) Add K2\)")
+    s = HEART_RE.sub("HEART", s)
+    s = s.replace(".0.pointer.pointer", "").replace(".0.pointer", "")
+    s = s.replace("@Val.", ".")
+    return s
+
+
+def tree_effects(M, T, entry, exits, extra=None):
+    """per acyclic path entry -> exits: (guards on the trees/cursors, ordered effects on trees, cursors, slots)"""
+    from .paths import acyclic_paths, PathOriginsOv
+    b, fb, cfg = M.b, M.fb, M.cfg
+    ov = {c: ("role", n) for c, n in T.cur.items()}
+    ov.update({t: ("role", n) for t, n in T.names.items()})
+    rows = []
+    for p in acyclic_paths(cfg, entry, exits, 4000):
+        org = PathOriginsOv(b, fb, p, overrides=ov)
+        r = Roles(b, fb, param_roles={1: "CODE"}, org=org)
+        ev = Events(b, fb, roles=r)
+        guards, effects = [], []
+        for i, bi in enumerate(p):
+            blk = b.blocks[bi]
+            for si, s in enumerate(blk["stmts"]):
+                if s["k"] != "assign":
+                    continue
+                pl = s["p"]
+                if not pl["proj"] and pl["l"] in T.cur:
+                    tgt = TreeModel.ref_target(b, M.vars, s["r"])
+                    if tgt in T.names:
+                        effects.append("%s:=&%s" % (T.cur[pl["l"]], T.names[tgt]))
+                    else:
+                        effects.append("%s:=NODE(%s)" % (T.cur[pl["l"]], _tree_norm(r.of_origin(org.of_rvalue(s["r"], bi, si)))))
+                elif not pl["proj"] and pl["l"] in T.names:
+                    effects.append("%s:=%s" % (T.names[pl["l"]], _tree_norm(r.of_origin(org.of_rvalue(s["r"], bi, si)))))
+                elif "deref" in pl["proj"] and "Area" in b.lty(pl["l"]):
+                    effects.append("SLOT(%s):=%s" % (_tree_norm(r.of_origin(org.of_local(pl["l"], bi, si))), _tree_norm(r.of_origin(org.of_rvalue(s["r"], bi, si)))))
+            t = blk["term"]
+            if extra is not None:
+                e = extra(bi, t, r)
+                if e:
+                    effects.append(_tree_norm(e))
+            if i + 1 < len(p) and t["k"] == "switch":
+                lab = ev.generic_edge(bi, t, p[i + 1])
+                if lab and any(k in lab for k in ("LEAF", "AREA")):
+                    guards.append(_tree_norm(lab))
+        rows.append((tuple(sorted(set(guards))), tuple(sorted(effects))))
+    return rows
+
+
+VAL0 = "Area::Val{K0,Box::new(AREA),Box::new(Area::Nil{})}"
+TREE_SPEC = {
+    "question": {
+        (("SW[DISCR(QLEAF)]=1",), ("QAREA:=" + VAL0, "QLEAF:=&QAREA", "AREA:=Area::Nil{}", "LEAF:=&AREA")),
+        (("SW[DISCR(QLEAF)]=0",), ("SLOT(QLEAF.right):=Box::new(%s)" % VAL0, "QLEAF:=NODE(QLEAF.right)", "AREA:=Area::Nil{}", "LEAF:=&AREA")),
+    },
+    "bang": {
+        (("SW[DISCR(LEAF)]=1",), ("AREA:=Area::new(K1)", "LEAF:=&AREA")),
+        (("LT[LEAF.type_,K2]=1", "SW[DISCR(LEAF)]=0", "SW[DISCR(LEAF.right)]=1"), ("SLOT(LEAF.right):=Box::new(Area::new(K1))", "LEAF:=NODE(LEAF.right)")),
+        (("LT[LEAF.type_,K2]=1", "SW[DISCR(LEAF)]=0", "SW[DISCR(LEAF.right)]=0"), ("SLOT(LEAF.right):=Box::new(Area::Val{K1,Box::new(Area::new(LEAF.right.type_)),Box::new(Area::Nil{})})", "LEAF:=NODE(LEAF.right)")),
+        (("LT[LEAF.type_,K2]=0", "SW[DISCR(LEAF)]=0"), ("AREA:=Area::Val{K1,Box::new(Area::new(LEAF.type_)),Box::new(Area::Nil{})}", "LEAF:=&AREA")),
+    },
+    "heart": {
+        (("SW[DISCR(LEAF)]=1",), ("AREA:=Area::new(HEART)", "LEAF:=&AREA")),
+        (("LT[LEAF.type_,K2]=1", "SW[DISCR(LEAF)]=0", "SW[DISCR(LEAF.right)]=1"), ("SLOT(LEAF.right):=Box::new(Area::new(HEART))",)),
+        (("LT[LEAF.type_,K2]=1", "SW[DISCR(LEAF)]=0", "SW[DISCR(LEAF.right)]=0"), ()),
+        (("LT[LEAF.type_,K2]=0", "SW[DISCR(LEAF)]=0"), ()),
+    },
+    "flush": {
+        (("SW[DISCR(QLEAF)]=1",), ("EMIT(AREA)",)),
+        (("SW[DISCR(QLEAF)]=0",), ("SLOT(QLEAF.right):=Box::new(AREA)", "EMIT(QAREA)")),
+    },
+}
+TREE_SPEC = {h: {(g, tuple(sorted(e))) for g, e in rows} for h, rows in TREE_SPEC.items()}
+TREE_DESC = {
+    "question": "`?`: the tree built so far becomes the left operand of a new ? node appended at the right end of the ?-spine (or the spine's first node); the !-tree starts empty again",
+    "bang": "`!`: empty -> a new ! node; cursor on an operator -> its right slot gets a new ! node (taking over a heart already there as left operand) and the cursor descends; cursor on a heart -> the heart becomes the left operand of a new ! root",
+    "heart": "heart: empty -> a leaf; cursor on an operator with an empty right slot -> fills it; otherwise ignored (first heart of a slot wins)",
+    "flush": "finished command: the !-tree is hung into the right end of the ?-spine (or is the area itself when there is no ?)",
+}
+
+
+def _discr_two_way(lab):
+    return lab
+
+
+def rule_tree(ctx, R):
+    """the right-nested tree construction, handler by handler, as decision tables over path-precise effects"""
+    fb = ctx.fb
+    M = ParserModel(fb)
+    if not R.anchor(M.b is not None and M.ok, "parser_model", "parser anchors"):
+        return
+    b, cfg = M.b, M.cfg
+    R.analyse(b.name)
+    T = TreeModel(M)
+    if not R.anchor(T.ok, "tree_model", "the two area trees (AREA, QAREA) and their cursors (LEAF, QLEAF)"):
+        return
+    ev0 = Events(b, fb, roles=M.roles)
+    C = "ELEM<ENUMERATE(CHARS(CODE))>.1"
+    entries = {}
+    for gb in sorted(M.loop):
+        tt = b.blocks[gb]["term"]
+        if tt["k"] != "switch":
+            continue
+        for s_ in cfg.succ[gb]:
+            lab = ev0.generic_edge(gb, tt, s_) or ""
+            if lab == "EQ[%s,K63]=1" % C or lab == "EQ[K63,%s]=1" % C:
+                entries.setdefault("question", []).append(s_)
+            elif lab == "EQ[%s,K33]=1" % C or lab == "EQ[K33,%s]=1" % C:
+                entries.setdefault("bang", []).append(s_)
+            elif lab.startswith("SW[DISCR(Iterator::position([T]::iter(CONST:HEARTS),CLOSURE))]=1"):
+                entries.setdefault("heart", []).append(s_)
+    tables = {}
+    for h in ("question", "bang", "heart"):
+        if not R.anchor(len(entries.get(h, [])) == 1, "tree:entry:" + h, "the branch of the area state that handles %s" % h):
+            continue
+        tables[h] = set(tree_effects(M, T, entries[h][0], [M.head]))
+    # flush sites: from the test of the ?-spine cursor to the UnOptCode::new that takes the area
+    fl = []
+    for nb, nt in M.news:
+        r0 = Roles(b, fb, param_roles={1: "CODE"}, overrides={**{c: n for c, n in T.cur.items()}, **{t: n for t, n in T.names.items()}})
+        cands = [gb for gb in range(len(b.blocks)) if b.blocks[gb]["term"]["k"] == "switch" and r0.of_operand(b.blocks[gb]["term"]["x"], gb, "t") == "DISCR(QLEAF)" and reaches_without(cfg, [gb], nb, cut_blocks=[M.head])]
+        # the closest one: no other candidate between it and the call
+        cands = [g for g in cands if not any(g2 != g and reaches_without(cfg, [g], g2, cut_blocks=[M.head, nb]) for g2 in cands)]
+        if not R.anchor(len(cands) == 1, "tree:flush:%d" % len(fl), "the test of the ?-spine cursor before a finished command is stored"):
+            continue
+
+        def extra(bi, t, r, nb=nb):
+            if bi == nb:
+                return "EMIT(%s)" % r.of_operand(t["args"][4], bi)
+            return None
+
+        fl.append(set(tree_effects(M, T, cands[0], [nb], extra=extra)))
+    R.floor("flush_sites", len(fl), 2, "places where a finished command is stored")
+    n = 0
+    for h, got in sorted(tables.items()):
+        want = TREE_SPEC[h]
+        n += len(got)
+        R.check(got == want, "tree:" + h, TREE_DESC[h], None, {"unexpected": sorted(map(str, got - want)), "missing": sorted(map(str, want - got))})
+    for i, got in enumerate(fl):
+        n += len(got)
+        R.check(got == TREE_SPEC["flush"], "tree:flush:%d" % i, TREE_DESC["flush"], M.news[i][1]["span"]["at"], {"unexpected": sorted(map(str, got - TREE_SPEC["flush"])), "missing": sorted(map(str, TREE_SPEC["flush"] - got))})
+    R.floor("tree_paths", n, 14, "paths through the area handlers and flush sites")
+
+
+RULES.append(("C04.TREE", "right-nested construction of the area tree: per-handler decision tables of the effects on the two trees, their cursors and the slots", rule_tree))
